@@ -10,7 +10,7 @@ import Mathlib.Tactic.SplitIfs
 
 set_option linter.unusedSimpArgs false
 
-namespace Cellml.Tie
+namespace Cellml.Tie.PPrinter
 open C11 Cellml.Gen
 
 /-! ## `_bracket` -/
@@ -281,7 +281,7 @@ theorem pw_loop (print : E → Except PyErr String) (items : List Item) (h : PwP
     (parts : String) (k : Nat) :
     Except.bind
       (forIn (items.map (fun i => pairOf i.e)) (litName "nan", parts, k) fun x __s =>
-        if Py.truthy (Cellml.Tie.isTrue (Prod.snd x)) = true then
+        if Py.truthy (Cellml.Tie.PPrinter.isTrue (Prod.snd x)) = true then
           Except.bind (print (Prod.fst x)) fun v =>
             pure (ForInStep.done (v, Prod.fst (Prod.snd __s), Prod.snd (Prod.snd __s)))
         else
@@ -338,4 +338,4 @@ theorem doprint_tie_bool (optimize : E → Except PyErr E) (print : E → Except
   simp only [hE, Py.truthy_bool, bind, Except.bind, pure, Except.pure]
   try (cases print e <;> rfl)
 
-end Cellml.Tie
+end Cellml.Tie.PPrinter
